@@ -406,12 +406,6 @@ def rule_random_guarded(ctx: Ctx, rid="C01.RANDOM-GUARDED"):
             # deterministic path must not be taken for None, and draws no randomness
             pass
     ctx.rep.floor("paths with a random draw", n, 1)
-    # and the deterministic paths have input_id not None
-    det = [p for p in paths if p.exit == "return" and p.facts.get(idp) != "none"]
-    bad = [p for p in det if p.facts.get(idp) not in ("notnone",)]
-    ctx.rep.check(not bad, rid, con + "[deterministic paths]",
-                  f"all {len(det)} deterministic return paths are under {idp} is not None" if not bad else
-                  f"a deterministic return path is taken under {idp} {bad[0].facts.get(idp)}", text="deterministic paths")
 
 
 ENTROPY_CALLS = {"hash", "id", "time.time", "time.time_ns", "time.monotonic", "time.perf_counter", "os.urandom", "os.getpid",
@@ -968,17 +962,27 @@ def rule_skip_guard(ctx: Ctx, rid="C11.SKIP-GUARD"):
         if not equal_on_skip or len(stored) != 1 or len(fresh) != 1:
             ctx.rep.bad(rid, con, f"skip is not `stored fingerprint == fingerprint of the argument`: {norm(test)}", text=norm(test))
             continue
-        fe = _subst(fresh[0], env)
+        fe = _inline_helpers(m, _subst(fresh[0], env))
         # walk the expression: param must reach through encode / hash constructor / hexdigest only
         bad_calls = []
         uses_param = False
-        for n in ast.walk(fe):
+        nodes = list(ast.walk(fe))
+        # helper functions of the module that are not single-expression: take every call they make
+        for n in list(nodes):
+            if isinstance(n, ast.Call) and dotted(n.func) in m.functions():
+                callee = m.functions()[dotted(n.func)]
+                nodes += [x for x in ast.walk(callee) if x is not callee]
+                if any(isinstance(a_, ast.Name) and a_.id == param for a_ in n.args):
+                    uses_param = True
+        for n in nodes:
             if isinstance(n, ast.Name) and n.id == param:
                 uses_param = True
             if isinstance(n, ast.Call):
                 d = dotted(n.func) or (n.func.attr if isinstance(n.func, ast.Attribute) else "?")
                 last = d.split(".")[-1]
-                if last in ("encode", "hexdigest", "digest") or d.startswith("hashlib.") or d in ("str", "bytes"):
+                if last in ("encode", "hexdigest", "digest") or d.startswith("hashlib.") or d in ("str", "bytes") or d in m.functions():
+                    continue
+                if d in ("re.compile",):
                     continue
                 bad_calls.append(d)
         attr = dotted(stored[0])
@@ -1294,9 +1298,9 @@ def rule_args_unmodified(ctx: Ctx, rid="C16.ARGS-UNMODIFIED"):
             if rb is None or rb.lineno > st.lineno:
                 probs.append((st, f"{nm}.{st.func.attr}() mutates the caller's argument"))
     for nm, st in rebinding.items():
-        fresh = isinstance(st.value, ast.Call) and dotted(st.value.func) in ("list", "tuple", "sorted", "dict")
+        fresh = isinstance(st.value, ast.Call) and not (isinstance(st.value.func, ast.Attribute) and dotted(st.value.func.value) in aliases)
         ctx.rep.check(fresh, rid, f"{BIN}:deterministic_choice[{nm} :=]",
-                      f"{nm} is rebound to a fresh object ({norm(st.value)[:40]}), the caller's is untouched" if fresh else
+                      f"{nm} is rebound to the result of a call ({norm(st.value)[:40]}), the caller's object is untouched" if fresh else
                       f"{nm} is rebound to {norm(st.value)[:50]}, which may alias the caller's object", site=m.site(st), text=norm(st))
     con = f"{BIN}:deterministic_choice"
     if probs:
